@@ -175,7 +175,7 @@ def run(ctx):
     ctx.leg = "mc"
     states = trans = 0
     cov["mc"] = {}
-    mcs = [("life-4ops", dict(maxops=4, addset="1, 2, 3, 5, 6, 7, 9", txadd="1", two=False)),
+    mcs = [("life-4ops", dict(maxops=4, addset="1, 2, 3, 6, 7, 9", txadd="1", two=False)),
            ("life-3ops-2msg", dict(maxops=3, two=True)),
            ("sem-3leaves", dict(mode="sem", maxops=2, seml=3, semt=True))] if q else \
           [("life-5ops", dict(maxops=5, addset="1, 2, 3, 6, 7, 9", txadd="1", two=False)),
